@@ -697,24 +697,10 @@ func Extract(a *Term, hi, lo int) *Term {
 	// the low bits of a sum/product depend only on the low bits of the
 	// operands; bitwise operators commute with extraction anywhere
 	switch a.Op {
-	case "bvmul", "bvadd", "bvsub":
-		if lo == 0 {
-			// only when the operands really get smaller (e.g. they are
-			// extensions): otherwise the bytes of a result could no longer
-			// be re-assembled into the result by Concat
-			ea, eb := Extract(a.Args[0], hi, 0), Extract(a.Args[1], hi, 0)
-			if ea.Op != "extract" && eb.Op != "extract" {
-				return bvbin(a.Op, ea, eb)
-			}
-		}
 	case "bvand", "bvor", "bvxor":
 		return bvbin(a.Op, Extract(a.Args[0], hi, lo), Extract(a.Args[1], hi, lo))
 	case "bvnot":
 		return BVNot(Extract(a.Args[0], hi, lo))
-	case "bvneg":
-		if lo == 0 {
-			return BVNeg(Extract(a.Args[0], hi, 0))
-		}
 	case "ite":
 		return Ite(a.Args[0], Extract(a.Args[1], hi, lo), Extract(a.Args[2], hi, lo))
 	}
@@ -780,9 +766,40 @@ func Resize(a *Term, w int) *Term {
 		return a
 	}
 	if a.S.W > w {
-		return Extract(a, w-1, 0)
+		return truncLow(a, w)
 	}
 	return ZeroExt(a, w-a.S.W)
+}
+
+// truncLow keeps the low w bits of a. The low bits of a sum, difference,
+// product or negation depend only on the low bits of the operands, so the
+// truncation is pushed inside when that makes the operands smaller (they are
+// extensions or constants). It is used for semantic truncations (Resize) and
+// when the bytes of a value are re-assembled, never when single bytes are cut
+// out, so that bytes can always be re-assembled into the term they came from.
+// NormLow re-applies truncLow to a value that was re-assembled from bytes:
+// extract[h:0](x) becomes the pushed-in truncation of x.
+func NormLow(t *Term) *Term {
+	if t.Op == "extract" && t.P[1] == 0 {
+		return truncLow(t.Args[0], t.P[0]+1)
+	}
+	return t
+}
+
+func truncLow(a *Term, w int) *Term {
+	switch a.Op {
+	case "bvmul", "bvadd", "bvsub":
+		ea, eb := truncLow(a.Args[0], w), truncLow(a.Args[1], w)
+		if ea.Op != "extract" && eb.Op != "extract" {
+			return bvbin(a.Op, ea, eb)
+		}
+	case "bvneg":
+		ea := truncLow(a.Args[0], w)
+		if ea.Op != "extract" {
+			return BVNeg(ea)
+		}
+	}
+	return Extract(a, w-1, 0)
 }
 
 // SResize sign-extends or truncates to w bits.
